@@ -46,10 +46,12 @@ def resolvedIn : (inT r : Ty) → Bool
       | _ => true
     | _ => true
 termination_by structural inT => inT
-/-- every element / attribute position of the input against one result position -/
+/-- the element / attribute positions of the input against the one result position
+they all map to: demanded only where they agree on a single type (otherwise the
+type alone does not determine what the placeholder stands for) -/
 def resolvedAllL : List Ty → Ty → Bool
   | [], _ => true
-  | it :: its, re => resolvedIn it re && resolvedAllL its re
+  | it :: its, re => if its.all (fun t => t.equals it) then resolvedIn it re else true
 termination_by structural its => its
 def resolvedZip : List Ty → List Ty → Bool
   | it :: its, r :: rs => resolvedIn it r && resolvedZip its rs
@@ -86,10 +88,9 @@ def passThroughShape (v r : Value) : Bool :=
 unknown admitted -/
 def admitsResult (r r' : Value) : Bool :=
   if !r.isKnown then
-    (r'.isNull || Ty.conformErrs r.ty r'.ty == 0) &&
-    (match Refine.concOf r' with
-     | some c => Refine.γV r c
-     | none => true)
+    match r.v.unmark1, Refine.concOf r' with
+    | .unk rf, some c => Refine.nullOk rf.nullness c && Refine.rangeOk rf c
+    | _, _ => true
   else if r.isNull then r'.isNull
   else true
 
